@@ -21,7 +21,7 @@ import dds
 V = 1
 
 def a(): return "a%d" % V
-def x(): return "x%d" % V
+def x(): return "x%d,a\\r\\nb\\rc" % V
 def y(): return "y-const"
 def g(): return ("g", V, [1, 2])
 def h(): return None if V == 2 else {"h": V}
